@@ -18,6 +18,9 @@ CLAIMED = {
  "C05": ("must-precede / must-follow ordering on SSA CFGs, guard-dominance, fsync must-pass-through over the resolved call chain, single-batch writer discipline, publish-last ordering over the VTA call tree (writer order vs the recovery reader's dereference chain)",
          "Decides the write-ahead, fsync-before-act, save→end-marker→apply and atomic-batch shapes on every path, the catch-up replay guards, and whether every record recovery dereferences from the head height is written before the head marker (flags the consensus-state record as an open finding). Does not decide post-crash store consistency or double-sign freedom over crash points.",
          "DESIGN.md §4 C05"),
+ "C09": ("guard-dominance on pre-checks, acquire/release pairing of the block gas pool over all exits, once-per-path nonce increment, snapshot/revert pairing in call frames, operand-shape checks of refund/fee/transfer arithmetic",
+         "Decides that gas is bought only behind nonce/balance/pool checks for gas*price, that every exit after the purchase returns the remainder to the pool (three early error returns are open findings), one nonce bump per executed path, the min(gasUsed/2, refund) shape, fee after refund on gasUsed*price, snapshot-before-mutation and revert-on-error in all five frame functions, and revert-and-skip of failing transactions in block commit. Does not decide the balance-sum equation over arbitrary bytecode.",
+         "DESIGN.md §4 C09"),
  "C11": ("field-flow coverage of the canonical sign-bytes builders and signing hashes + sign/verify sibling agreement (same canonicaliser callee) + guard-dominance on recovery and signature-value checks",
          "Decides that every field of the signed canonical vote/proposal comes from the message (flags the hard-coded vote type as an open finding), that all sign and verify sites hash the same canonical bytes, that VerifySignature/Vote.Verify bind the signer, and that transaction signing hashes cover all fields with chain-id and high-s rejection before recovery. Cryptographic strength is trusted, not decided.",
          "DESIGN.md §4 C11"),
